@@ -314,7 +314,8 @@ func (m *Manager) AddBlocks(blocks []types.Block) error {
 }
 
 // AddValidatedV2Blocks ingests a chain of v2 blocks. The blocks must already be
-// validated, and the first block's parent must be known. If the chain has
+// validated, and the first block's parent must be known and itself validated
+// (applied, pre-validated or pruned; not merely stored by AddBlocks). If the chain has
 // sufficient work, it may become the new best chain, triggering a reorg.
 func (m *Manager) AddValidatedV2Blocks(blocks []types.Block, states []consensus.State) error {
 	m.mu.Lock()
@@ -326,6 +327,12 @@ func (m *Manager) AddValidatedV2Blocks(blocks []types.Block, states []consensus.
 	}
 	if _, ok := m.store.State(blocks[0].ParentID); !ok {
 		return fmt.Errorf("missing parent for block %v", blocks[0].ParentID)
+	} else if _, bs, ok := m.store.Block(blocks[0].ParentID); ok && bs == nil {
+		// the parent was stored by AddBlocks but never validated or applied:
+		// only its header-derived state is known. Blocks stored here are
+		// marked as validated, which later lets proof updates walk across
+		// them using the parent's state, so that state must be a real one.
+		return fmt.Errorf("parent %v of pre-validated blocks has not been validated", blocks[0].ParentID)
 	}
 	for i := range blocks {
 		if blocks[i].V2 == nil {
